@@ -39,23 +39,34 @@ def c01(ctx):
         import mqtt.pdu as pdu
         bad = []
         for v in range(65536):
-            e = bytes(pdu.encode16Int(v))
-            if pdu.decode16Int(bytearray(e)) != v or e != bytes([v >> 8, v & 255]):
+            try:
+                e = bytes(pdu.encode16Int(v))
+                if pdu.decode16Int(bytearray(e)) != v or e != bytes([v >> 8, v & 255]):
+                    bad.append(v)
+            except Exception:
                 bad.append(v)
         n16 = 65536
         for v in bad[:3]:
             res.violations.append(dict(what='C01: decode16Int(encode16Int(%d)) != %d' % (v, v), signature='C01 int16', case=dict(kind='int16', fields=dict(v=v))))
         # remaining-length field across all byte-count boundaries
         for v in [0, 1, 127, 128, 129, 16383, 16384, 16385, 2097151, 2097152, 2097153, 268435454, 268435455] + [rng.randrange(268435456) for _ in range(3000)]:
-            e = bytes(pdu.encodeLength(v))
-            if pdu.decodeLength(bytearray(e) + b'\xff\x7f') != v or len(e) > 4:
+            try:
+                e = bytes(pdu.encodeLength(v))
+                good = pdu.decodeLength(bytearray(e) + b'\xff\x7f') == v and len(e) <= 4
+            except Exception:
+                good = False
+            if not good:
                 res.violations.append(dict(what='C01: decodeLength(encodeLength(%d)) != %d' % (v, v), signature='C01 remlen', case=dict(kind='remlen', fields=dict(v=v))))
         if ctx['model_ok']:
             vals = [0, 1, 127, 128, 16383, 16384, 2097151, 2097152, 268435455] + [rng.randrange(268435456) for _ in range(500)]
             outs = cc.run_lines(['codec elen %d' % v for v in vals])
             for v, o in zip(vals, outs):
-                if o != 'ok ' + hx(pdu.encodeLength(v)):
-                    res.divergences.append(dict(what='correspondence: encodeLength(%d): real %s model %s' % (v, hx(pdu.encodeLength(v)), o)))
+                try:
+                    real = hx(pdu.encodeLength(v))
+                except Exception as ex:
+                    real = 'raised ' + type(ex).__name__
+                if o != 'ok ' + real:
+                    res.divergences.append(dict(what='correspondence: encodeLength(%d): real %s model %s' % (v, real, o)))
     res.evaluations = stats['cases'] + n16
     res.programs = stats['cases']
     for (k, f) in cases:
@@ -265,6 +276,13 @@ def _streams(rng, profile, tier):
     for sz in sizes:
         if sub_id:
             out.append([publish_pkt('big/ñ', bytes((i * 7) % 256 for i in range(sz)), rng.choice([0, 1, 2]), mid=20)] + [rng.choice(cand) for _ in range(2)])
+    # remaining lengths exactly at the boundaries of the base-128 field (first length byte 0x80, 0xFF, ...), between other packets
+    if sub_id:
+        for rem in [127, 128, 129, 255, 256, 384, 16383, 16384, 16385] + ([2097151, 2097152] if tier != 'quick' else []):
+            q = rng.choice([0, 1, 2])
+            head = 2 + len('b/ñ'.encode('utf-8')) + (2 if q else 0)
+            big = publish_pkt('b/ñ', bytes((i * 11) % 256 for i in range(rem - head)), q, mid=21)
+            out.append([rng.choice(cand), big, rng.choice(cand), rng.choice(cand)])
     return out
 
 
